@@ -156,7 +156,7 @@ def run(ctx):
         evs = results[keys[tid - 1]]
         nxt = evs[l - 1] if l and l <= len(evs) else None
         prog = meta[keys[tid - 1]]
-        sig = f"trace:{v.kind}:{v.name}:{classify(prog, evs)}" if v.kind == "invariant" else f"trace:{v.kind}:{v.name}:{nxt['a'] if nxt else 'end'}"
+        sig = f"trace:{v.kind}:{v.name}:{classify(prog, evs, v.name)}" if v.kind == "invariant" else f"trace:{v.kind}:{v.name}:{nxt['a'] if nxt else 'end'}"
         seen_sig[sig] = seen_sig.get(sig, 0) + 1
         if seen_sig[sig] > 3:
             continue
@@ -202,10 +202,10 @@ def run(ctx):
                "resource and read_input_group with equal basenames may be refused by the implementation")
 
 
-def classify(prog, evs):
+def classify(prog, evs, inv=""):
     """root-cause class of a violating program, for the signature"""
     mentioned = set()
-    late = False
+    late = same = False
     for op in prog:
         if op["op"] == "Command":
             for r in op["refs"]:
@@ -214,6 +214,8 @@ def classify(prog, evs):
             late = True
         if op["op"] == "ReadInputGroup":
             bases = [ip["base"] for ip in op["f"].values()]
-            if len(set(bases)) < len(bases):
-                return "input-group-equal-basenames"
-    return "add_extension-after-mention" if late else "other"
+            same = same or len(set(bases)) < len(bases)
+    causes = (["input-group-equal-basenames"] if same else []) + (["add_extension-after-mention"] if late else [])
+    if inv not in ("C18_DistinctLocal", "C18_OnePath"):
+        causes.reverse()
+    return causes[0] if causes else "other"
